@@ -61,6 +61,7 @@ type wireProblem struct {
 	What   string `json:"w"`
 	Mut    bool   `json:"m,omitempty"`
 	Subj   string `json:"s,omitempty"`
+	Step   int    `json:"i,omitempty"`
 }
 
 type wireResult struct {
@@ -90,7 +91,7 @@ func (w wireJob) job() job {
 func (r result) wire() wireResult {
 	w := wireResult{Key: r.key, ModelKey: r.modelKey, Obs: r.obs, Writes: r.writes, NilAcc: r.nilAcc, NilRef: r.nilRef, Names: r.names, Edited: r.edited, Refusals: r.refusals}
 	for _, p := range r.probs {
-		w.Probs = append(w.Probs, wireProblem{p.clause, p.detail, p.what, p.mut, p.subj})
+		w.Probs = append(w.Probs, wireProblem{p.clause, p.detail, p.what, p.mut, p.subj, p.step})
 	}
 	return w
 }
@@ -98,7 +99,7 @@ func (r result) wire() wireResult {
 func (w wireResult) result() result {
 	r := result{key: w.Key, modelKey: w.ModelKey, obs: w.Obs, writes: w.Writes, nilAcc: w.NilAcc, nilRef: w.NilRef, names: w.Names, edited: w.Edited, refusals: w.Refusals}
 	for _, p := range w.Probs {
-		r.probs = append(r.probs, problem{clause: p.Clause, detail: p.Detail, what: p.What, mut: p.Mut, subj: p.Subj, done: true})
+		r.probs = append(r.probs, problem{clause: p.Clause, detail: p.Detail, what: p.What, mut: p.Mut, subj: p.Subj, done: true, step: p.Step})
 	}
 	return r
 }
@@ -524,7 +525,6 @@ type probe struct {
 
 func acceptable(kind string) bool { return kind == "reg" || kind == "reg-tnil" }
 
-//
 // confIll / confMaxRegs: R also ranges over the representative pairs of the handler-conformance
 // dimension that do not implement their interface (conform.go), conf(I,H):<every pool name>, in the
 // prefix states of at most confMaxRegs registrations; refusal class "ill-shape".
